@@ -94,6 +94,10 @@ AdvSplice   == CanEdit /\ \E s \in 1..Len(Src) : \E i \in 1..Len(Src[s]), k \in 
                  s - 1 # f.hsrc /\ Edit("splice", [f EXCEPT !.recs = Insert(f.recs, k, ARec(s, i))])
 AdvReplace  == CanEdit /\ \E s \in 1..Len(Src) : \E i \in 1..Len(Src[s]), k \in 1..NRec :
                  s - 1 # f.hsrc /\ Edit("replace", [f EXCEPT !.recs[k] = ARec(s, i)])
+\* a record that was never sealed by anyone (attacker-made bytes with chosen cleartext fields)
+Forged(k, fl, ln) == [src |-> 99, idx |-> k - 1, plen |-> ln, last |-> fl, flagf |-> fl, lenf |-> ln, ctrok |-> TRUE, tam |-> TRUE]
+AdvForge    == CanEdit /\ \E k \in 1..(NRec + 1), fl \in {0, 1}, ln \in {0, 1} :
+                 Edit("forge", [f EXCEPT !.recs = Insert(f.recs, k, Forged(k, fl, ln))])
 AdvTruncate == /\ pc = "adv" /\ Len(edits) < MaxEdits /\ f.cut < 0 /\ f.trail = 0
                /\ \E c \in ({0, 1, H - 1} \cap 0..(H - 1))
                        \cup UNION {{EndOf(f.recs, H, k - 1) + o : o \in CutOffsets(f.recs[k])} : k \in 1..NRec} :
@@ -102,7 +106,7 @@ AdvAppend   == /\ pc = "adv" /\ Len(edits) < MaxEdits /\ f.cut < 0 /\ f.trail = 
                /\ \E t \in {1, 16, 17} : Edit("append", [f EXCEPT !.trail = t])
 
 Adversary == AdvHdr \/ AdvSwapHdr \/ AdvTamper \/ AdvFlag \/ AdvLen \/ AdvCtr \/ AdvDelete \/ AdvDup
-             \/ AdvSwap \/ AdvSplice \/ AdvReplace \/ AdvTruncate \/ AdvAppend
+             \/ AdvSwap \/ AdvSplice \/ AdvReplace \/ AdvForge \/ AdvTruncate \/ AdvAppend
 
 Start == /\ pc = "adv"
          /\ IF HdrParts = <<>> THEN pc' = "rhdr" /\ need' = 16 ELSE pc' = "hdr" /\ need' = HdrParts[1]
